@@ -23,6 +23,7 @@ type HandlerResult struct {
 	Cut     bool
 	Panics  int
 	X       *Explorer
+	AbortOrigins map[string]int // error origins of the aborting paths
 	deltas  map[*Outcome][]ColDelta
 	nonneg  map[string]bool // loop atoms proven non-negative by induction
 }
@@ -70,7 +71,7 @@ func RunE1(m *Model) *E1 {
 		// unwrap pointer-receiver wrappers
 		x.Stats.Paths = 0
 		outs := x.Explore(fn, entryParams(fn))
-		h := &HandlerResult{EP: ep, Key: ep.Key(), Fn: fn, X: x, Cut: x.cut, deltas: map[*Outcome][]ColDelta{}}
+		h := &HandlerResult{EP: ep, Key: ep.Key(), Fn: fn, X: x, Cut: x.cut, deltas: map[*Outcome][]ColDelta{}, AbortOrigins: map[string]int{}}
 		for _, o := range outs {
 			switch {
 			case o.Kind == exitCut:
@@ -81,6 +82,11 @@ func RunE1(m *Model) *E1 {
 				h.Outs = append(h.Outs, o)
 			default:
 				h.Aborts++
+				if idx := errResultIndex(fn.Signature); idx >= 0 && idx < len(o.Rets) {
+					if ev, ok := o.Rets[idx].(*ErrV); ok {
+						h.AbortOrigins[ev.Origin]++
+					}
+				}
 			}
 		}
 		res.Handlers = append(res.Handlers, h)
